@@ -35,6 +35,8 @@ type PExp struct {
 type Target struct {
 	Steps   []Step  `json:"steps"`
 	Filters []*PExp `json:"filters"`
+	// Alts are further union branches written BEFORE the main path: "alt1 | alt2 | main[filters]"
+	Alts [][]Step `json:"alts,omitempty"`
 }
 
 func (n NT) xpath() string {
@@ -167,12 +169,55 @@ func (p *PExp) kinds(acc map[string]bool) {
 	}
 }
 
+func stepsXPath(steps []Step) string {
+	var sb strings.Builder
+	for _, s := range steps {
+		if s.Desc {
+			sb.WriteString("//")
+		} else {
+			sb.WriteString("/")
+		}
+		sb.WriteString(s.NT.xpath())
+	}
+	return sb.String()
+}
+
+func (t Target) altsXPath() string {
+	var sb strings.Builder
+	for _, a := range t.Alts {
+		sb.WriteString(stepsXPath(a) + " | ")
+	}
+	return sb.String()
+}
+
+// AltsCoq prints the union branches as a Coq list of step lists.
+func (t Target) AltsCoq() string {
+	var as []string
+	for _, a := range t.Alts {
+		var st []string
+		for _, s := range a {
+			ax := "Child"
+			if s.Desc {
+				ax = "Desc"
+			}
+			st = append(st, "("+ax+", "+s.NT.coq()+")")
+		}
+		as = append(as, vh.CoqList(st))
+	}
+	return vh.CoqList(as)
+}
+
+// InModelClass: a union with trailing filters has a final predicate that depends on the branch;
+// the class of the theorems (one predicate for all candidates) does not cover it.
+func (t Target) InModelClass() bool { return len(t.Alts) == 0 || len(t.Filters) == 0 }
+
 // NoFilter is the path part as xpath text.
 func (t Target) NoFilter() string {
 	if len(t.Steps) == 0 {
 		return "."
 	}
 	var sb strings.Builder
+	sb.WriteString(t.altsXPath())
 	for _, s := range t.Steps {
 		if s.Desc {
 			sb.WriteString("//")
@@ -399,6 +444,24 @@ func GenTarget(r *vh.Rng, v *Vocab, maxFilters int, allowRoot bool) Target {
 			t.Steps = append(t.Steps, Step{Desc: r.Chance(0.3), NT: v.name(r)})
 		}
 	}
+	if len(t.Steps) > 0 && len(v.paths) > 0 && r.Chance(0.15) {
+		// a union: one or two further branches aimed at other elements of the document
+		for i, n := 0, r.Between(1, 2); i < n; i++ {
+			p := v.paths[r.Pick(len(v.paths))]
+			var alt []Step
+			if r.Chance(0.3) {
+				alt = []Step{{Desc: true, NT: p[len(p)-1]}}
+			} else {
+				for _, n := range p {
+					alt = append(alt, Step{NT: n})
+				}
+			}
+			t.Alts = append(t.Alts, alt)
+		}
+	}
+	if len(t.Alts) > 0 && r.Chance(0.5) {
+		maxFilters = 0 // a plain union: inside the class of the theorems
+	}
 	nf := 0
 	if maxFilters > 0 && r.Chance(0.6) {
 		nf = r.Between(1, maxFilters)
@@ -451,6 +514,12 @@ func (t Target) Classify() []string {
 		}
 	}
 	ks = append(ks, "target:filters="+string(rune('0'+len(t.Filters))))
+	if len(t.Alts) > 0 {
+		ks = append(ks, "target:union")
+		if len(t.Filters) > 0 {
+			ks = append(ks, "target:union-with-trailing-filter(implementation-side only)")
+		}
+	}
 	acc := map[string]bool{}
 	for _, f := range t.Filters {
 		f.kinds(acc)
